@@ -242,6 +242,23 @@ func intrinsicTable() map[string]func(in *Interp, fr *frame, args []Value) Value
 		f := ifaceFunc(args[0])
 		return in.funcCode(f)
 	}
+	m["verifFuncAt"] = func(in *Interp, fr *frame, args []Value) Value {
+		// the func value living at data address dx (nil interface if none is known there)
+		dx := args[0].(*Term)
+		if f, ok := in.addrs.byFuncAddr[dx]; ok {
+			return Iface{t: f.typ, v: f}
+		}
+		for _, f := range in.path.funcsWithAddr {
+			if f.addr == nil {
+				continue
+			}
+			r, _ := in.solver.Check(in.path.pc, Ne(dx, f.addr), nil)
+			if r == Unsat {
+				return Iface{t: f.typ, v: f}
+			}
+		}
+		return Iface{}
+	}
 	m["verifNote"] = func(in *Interp, fr *frame, args []Value) Value {
 		in.path.notes = append(in.path.notes, argStr(args[0]))
 		return nil
